@@ -12,5 +12,106 @@ pub(crate) fn parser_dispatch(name: &str) -> Option<fn()> {
 }
 
 
+// ---------------------------------------------------------------------
+// S3  Selector::specificity counts ids, classes + pseudo-classes, elements
+//     (C19).  Selector shapes are concrete (heap-shaped enums chosen
+//     symbolically do not finish under CBMC); nth-child coefficients symbolic.
+// ---------------------------------------------------------------------
+#[cfg_attr(kani, kani::proof)]
+#[cfg_attr(kani, kani::unwind(3))]
+pub(crate) fn s3_selector_specificity() {
+    let a: i32 = kani::any();
+    let b: i32 = kani::any();
+    let nth = SelectorComponent::NthChild {
+        a,
+        b,
+        sel: Selector { components: vec![SelectorComponent::Star], pseudo_element: None },
+    };
+    // li:nth-child(an+b)
+    let s1 = Selector {
+        components: vec![nth, SelectorComponent::Element(String::new())],
+        pseudo_element: None,
+    };
+    let sp1 = s1.specificity();
+    assert!(sp1 == Specificity { inline: false, id: 0, class: 1, typ: 1 }, ":nth-child counts as a class");
+    // ".c *" (stored right to left)
+    let s2 = Selector {
+        components: vec![SelectorComponent::Star, SelectorComponent::Class(String::new())],
+        pseudo_element: None,
+    };
+    let sp2 = s2.specificity();
+    assert!(sp2 == Specificity { inline: false, id: 0, class: 1, typ: 0 });
+    // "#x > e::before"
+    let s3 = Selector {
+        components: vec![SelectorComponent::Element(String::new()), SelectorComponent::Hash(String::new())],
+        pseudo_element: Some(PseudoElement::Before),
+    };
+    let sp3 = s3.specificity();
+    assert!(sp3 == Specificity { inline: false, id: 1, class: 0, typ: 1 });
+    // combinators count nothing
+    let s4 = Selector {
+        components: vec![SelectorComponent::CombChild, SelectorComponent::CombDescendant],
+        pseudo_element: None,
+    };
+    assert!(s4.specificity() == Specificity { inline: false, id: 0, class: 0, typ: 0 });
+    assert!(sp2 < sp1 && sp1 < sp3);
+    kani::cover!(a < 0 && b > 5);
+    std::mem::forget(s1);
+    std::mem::forget(s2);
+    std::mem::forget(s3);
+    std::mem::forget(s4);
+}
+
+// ---------------------------------------------------------------------
+// Native replay targets for the MIR-level checks (mirsym).  They are plain
+// functions (not Kani proofs): bin/check feeds them the solver's model.
+// ---------------------------------------------------------------------
+
+/// :nth-child(an+b) on the idx-th <p> of a real parsed document.
+pub(crate) fn m_nth_child() {
+    let a: i32 = kani::any();
+    let b: i32 = kani::any();
+    let idx: i32 = kani::any();
+    kani::assume(idx >= 1 && idx <= 4096);
+    let mut html = String::from("<div>");
+    for _ in 0..idx {
+        html.push_str("<p>x</p>");
+    }
+    html.push_str("</div>");
+    let dom = crate::config::plain().parse_html(html.as_bytes()).expect("parse");
+    // document -> html -> body -> div
+    fn find_div(h: &Handle) -> Option<Handle> {
+        if let Element { name, .. } = &h.data {
+            if &*name.local == "div" {
+                return Some(h.clone());
+            }
+        }
+        for c in h.children.borrow().iter() {
+            if let Some(d) = find_div(c) {
+                return Some(d);
+            }
+        }
+        None
+    }
+    let div = find_div(&dom.document).expect("div");
+    let target = div.children.borrow()[(idx - 1) as usize].clone();
+    let sel = Selector {
+        components: vec![SelectorComponent::NthChild {
+            a,
+            b,
+            sel: Selector { components: vec![SelectorComponent::Star], pseudo_element: None },
+        }],
+        pseudo_element: None,
+    };
+    let got = sel.matches(&target);
+    // reference in i64: exists n >= 0 with a*n + b == idx
+    let (a64, b64, i64_) = (a as i64, b as i64, idx as i64);
+    let d = i64_ - b64;
+    let want = if a64 == 0 { d == 0 } else { d % a64 == 0 && d / a64 >= 0 };
+    assert!(got == want, ":nth-child({}n+{}) on element {}: got {} want {}", a, b, idx, got, want);
+}
+
 crate::verif_common::registry! {
+    m_nth_child,
+    s3_selector_specificity,
 }
